@@ -175,6 +175,23 @@ impl Monitor for C04 {
         };
         let mut p = Printer::new(PrintOpts::default());
         p.block(&marked);
+        // tokens that span several lines themselves: some string literals (never the markers) are re-spelled as long
+        // bracket strings with line breaks inside, or as quoted strings with backslash-newline continuations
+        if r.chance(1, 2) {
+            let pct = *r.pick(&[10u32, 30, 60]);
+            for t in p.toks.iter_mut() {
+                if t.tag == "string" && !t.text.contains("M") && !t.text.contains('`') && (t.text.starts_with('"') || t.text.starts_with('\'')) && r.chance(pct, 100) {
+                    let q = t.text.chars().next().unwrap_or('"');
+                    let lines = 1 + r.below(3);
+                    t.text = match r.below(4) {
+                        0 => format!("[[{}]]", "\nrow".repeat(lines)),
+                        1 => format!("[==[x{}\n]==]", "\ny ]] z".repeat(lines)),
+                        2 => format!("{q}a{}{q}", "\\\nb".repeat(lines)),
+                        _ => format!("{q}{}{q}", "\\z\n   c".repeat(lines)),
+                    };
+                }
+            }
+        }
         let o = LayoutOpts { newline: r.below(3) as u8, comment_pct: *r.pick(&[0, 5, 10]), newline_pct: *r.pick(&[10, 25, 40]), trailing_newline: r.bool(), tabs: r.bool(), statement_lines: r.chance(3, 4) };
         let (mut text, _) = layout_tokens(&p.toks, &mut r, &o);
         if !tokens_preserved(&text, &p.toks) {
@@ -377,6 +394,9 @@ impl Monitor for C04 {
             if has("remove_if_expression") && t.if_expr_two_elseif {
                 trig.push("if-expression-with-2-elseif");
             }
+            if (has("remove_compound_assignment") || has("remove_floor_division")) && t.compound_target_with_multi_line_token {
+                trig.push("compound-assignment-target-with-multi-line-token");
+            }
         }
         let removing = ["remove_unused_variable", "remove_empty_do", "remove_unused_while", "filter_after_early_return", "remove_unused_if_branch", "remove_assertions", "remove_debug_profiling", "remove_types"];
         if removing.iter().any(|r| has(r)) {
@@ -397,6 +417,12 @@ struct Trig {
     method_call: bool,
     if_expr_two_elseif: bool,
     multi_name_local_fewer_values: bool,
+    compound_target_with_multi_line_token: bool,
+}
+
+fn has_multi_line_literal(e: &Expr) -> bool {
+    // printed back, a literal that was written over several lines keeps its spelling
+    crate::reflua::print::print_expr(e).contains('\n')
 }
 
 fn is_constant(e: &Expr) -> bool {
@@ -428,6 +454,9 @@ fn scan_block(b: &Block, t: &mut Trig) {
                 }
             }
             Stmt::CompoundAssign { target, value, .. } => {
+                if has_multi_line_literal(target) {
+                    t.compound_target_with_multi_line_token = true;
+                }
                 scan_expr(target, t);
                 scan_expr(value, t);
             }
